@@ -71,7 +71,7 @@ def gen_rho(rng):
 def gen(tier, rng):
     # 'tie' cases are compared with the Coq model (interval goals, ~0.1 s each); all cases go through the
     # oracle on the real code
-    n_comp, n_jax, n_kernel = (96, 24, 12) if tier == 'quick' else (1600, 400, 200)
+    n_comp, n_jax, n_kernel = (96, 24, 12) if tier == 'quick' else (800, 200, 100)
     n_comp_o, n_jax_o = (1200, 200) if tier == 'quick' else (20000, 2000)
     maxw = 6 if tier == 'quick' else 10
     cases = []
